@@ -9,6 +9,7 @@ ENGINES = [
     {"name": "E3", "path": "bppverif/orderai.py", "serves_properties": [], "kind_free_text": "abstract interpretation of comparison-only functions over all order types (exact for its clause)"},
     {"name": "E6", "path": "bppverif/e6.py", "serves_properties": ["C15"], "kind_free_text": "cache-invalidation completeness: interprocedural summaries of dependency writes and invalidations over the CFG"},
     {"name": "E8", "path": "bppverif/c18.py", "serves_properties": ["C18", "C09"], "kind_free_text": "kind / polarity typing of arguments (sampler conventions, strict vs inclusive flags)"},
+    {"name": "E4", "path": "bppverif/c16.py", "serves_properties": ["C16", "C12", "C03"], "kind_free_text": "typestate over the CFG: npos discipline, acquire/release pairing, fresh-object retargeting"},
     {"name": "E5", "path": "bppverif/c02.py", "serves_properties": ["C02"], "kind_free_text": "sibling / table agreement: validation loop vs apply loop, copy vs share functions"},
 ]
 
@@ -88,6 +89,14 @@ CLAIMED["C18"] = dict(
     level=("Static rules decide, independent of seed and sample: a mean argument reaches the std sampler as a mean, a rate as a rate, a variance as a variance, in RandomTools and in every distribution's randC(); "
            "emptiness and over-long requests are refused before any draw; every draw in the library is driven by RandomTools::DEFAULT_GENERATOR, which setSeed seeds, and no other randomness source exists."),
     note=TB + "Not decided: every distributional statement (goodness of fit), multinomial and weighted picks, contingency-table margins, p-value range; weighted picks assume size(w) == size(v); Gamma randC tests the un-shifted draw against the domain (noted).")
+
+CLAIMED["C16"] = dict(
+    engine="E4+E1",
+    technique="static analysis (necessary conditions): npos typestate on std::string search results with guard dominance, unsigned 'size()-c' underflow rule, feasible state-preserving-cycle search and zero-stride idiom on every loop, interprocedural division-by-parameter rule, throw-type typing",
+    level=("Necessary conditions of 'never crashes or hangs', decided for every input over the 13 anchored units: search results on caller-supplied text are tested against npos before positional use; "
+           "no 'size() - c' bound/index on a possibly empty container without a guard; none of the loops can cycle without changing state and none advances only by the size of a possibly empty caller string; "
+           "integral divisions by a parameter are guarded; only library exceptions are thrown explicitly. Passing these rules does NOT prove absence of crashes (that remains the fuzzers' job)."),
+    note=TB + "Not decided: invalid iterators inside std algorithms, signed overflow, allocation size, index ranges that need value reasoning (e.g. continuation lines in getAttributesMap), exceptions escaping from std members.")
 
 NOT_APPLICABLE = {
     "C06": ("every clause is a floating-point identity of the JAMA QL/QR iterations (A.V = V.D within k.eps, ordering, trace/determinant); correctness lies in rotation coefficients and "
